@@ -630,17 +630,25 @@ class ClientTls(Client):
         except OSError as ex:
             if ex.errno in (ssl.SSL_ERROR_WANT_READ, ssl.SSL_ERROR_WANT_WRITE):
                 return False
-            elif ex.errno in (ssl.SSL_ERROR_EOF, ):
+            elif ex.errno in (ssl.SSL_ERROR_EOF,
+                              errno.ECONNABORTED,
+                              errno.ECONNRESET,
+                              errno.EPIPE,
+                              errno.ENETRESET,
+                              errno.ENETUNREACH,
+                              errno.EHOSTUNREACH,
+                              errno.ENETDOWN,
+                              errno.EHOSTDOWN,
+                              errno.ETIMEDOUT,
+                              errno.ECONNREFUSED):
+                # server went away during handshake so give up on this
+                # connection. serviceConnect reopens when it tries again.
                 self.close()
-                raise   # should give up here nicely
+                self.cutoff = True
+                return False
             else:
                 self.close()
                 raise
-        except OSError as ex:
-            self.close()
-            if ex.errno in (errno.ECONNABORTED, ):
-                raise  # should give up here nicely
-            raise
         except Exception as ex:
             self.close()
             raise
